@@ -1,5 +1,6 @@
 """C03 — expressions evaluate per the documented operator semantics and precedence."""
 import os
+import re
 import subprocess
 
 import checklib
@@ -8,9 +9,11 @@ import checklib
 def decode(p):
     f = p.split(" ")
     try:
-        if f[0] == "M":
-            return {"source": bytes.fromhex(f[1]).decode("utf8", "replace"), "evaluated_in_turn_under": f[-1].split("|")}
-        return {"source": bytes.fromhex(f[0]).decode("utf8", "replace") if f[0] != "-" else ""}
+        src = _field(p, "src")
+        d = {"source": bytes.fromhex(src).decode("utf8", "replace") if src != "-" else ""}
+        if _field(p, "env"):
+            d["evaluated_in_turn_under"] = _field(p, "env").split("|")
+        return d
     except Exception:
         return p
 
@@ -36,7 +39,49 @@ def extract(ctx):
         ctx.c03_amplify = True
 
 
+def _field(payload, key):
+    for f in payload.split(" "):
+        if f.startswith(key + "="):
+            return f[len(key) + 1:]
+    return None
+
+
+def _lower_names(res):
+    """error operand names compared without letter case (keyword spelling variants)"""
+    def low(m):
+        try:
+            return m.group(1) + bytes.fromhex(m.group(2)).decode("utf8", "replace").lower().encode().hex() + " "
+        except ValueError:
+            return m.group(0)
+    return re.sub(r"(E \w+ )([0-9a-f]+) ", low, res)
+
+
 def post(ctx, cases, gores, model):
+    # layout / keyword-spelling variants against their single-blank writing: the REAL code alone must
+    # give the same tree and outcome for every member of a group (independent of model and of both lexers)
+    groups = {}
+    for i, p in cases.items():
+        gid = _field(p, "grp")
+        if gid:
+            groups.setdefault(gid, []).append(i)
+    ngroups = nvariants = 0
+    reported = 0
+    for gid, idxs in sorted(groups.items()):
+        if len(idxs) < 2:
+            continue
+        ngroups += 1
+        nvariants += len(idxs) - 1
+        ref = _lower_names(gores.get(idxs[0], "MISSING"))
+        for i in idxs[1:]:
+            if _lower_names(gores.get(i, "MISSING")) != ref and reported < 2:
+                reported += 1
+                rp = checklib.write_replay(ctx, "input", {"payload": cases[i], "readable": decode(cases[i]),
+                                                          "plain_writing": decode(cases[idxs[0]])},
+                                           gores.get(idxs[0]), gores.get(i),
+                                           f"./check {ctx.prop} --replay <this file> (compare with the plain writing)", tag="layout")
+                checklib.violation(ctx, rp, "layout / spelling variant differs from its single-blank writing")
+    ctx.coverage["layout_groups"] = ngroups
+    ctx.coverage["layout_variants_compared_with_plain_writing"] = nvariants
     if getattr(ctx, "c03_amplify", False):
         found = search(ctx, big=True)
         if found:
